@@ -32,3 +32,10 @@ func VerifScanLines(data []byte) ([][]byte, error) {
 	}
 	return lines, sc.Err()
 }
+
+// VerifWindow returns the parser's two-token window (currentToken, peekToken; either
+// may be nil), whether a lexical error has been recorded (p.err != nil), and the
+// number of arrays and dictionaries the parser counts as open (p.depth).
+func VerifWindow(p *Parser) (cur, peek *Token, errSet bool, depth int) {
+	return p.currentToken, p.peekToken, p.err != nil, p.depth
+}
